@@ -200,6 +200,20 @@ def check_order_statistic(ctx, rule: str):
     # fallback bucket closes at the observed maximum
     ok = any(isinstance(n, ast.AugAssign) and unparse(n.value).replace(" ", "") == "[max(df_feature)]" for n in walk_no_nested(fn_.node))
     ctx.ob(rule, construct(fn_, "a single remaining bucket is closed by the observed maximum"), ok, loc(fn_))
+    # the quantile search sees every row of the column: no sub-sampling, no randomness, nothing that
+    # depends on the interpreter (hash of a str is salted per process)
+    ff = repo.find_function(f"{F_QUAN}::fit_feature")
+    fq = [c for c in calls(ff, "find_quantiles")]
+    sd = single_defs(ff.node)
+    okc = False
+    src = "?"
+    if len(fq) == 1 and fq[0].args:
+        src = unparse(inline(ff.node, fq[0].args[0], defs=sd)).replace(" ", "")
+        okc = src in ("X[feature].values", "X[feature].to_numpy()", "array(X[feature])", "X[feature].array")
+    nondet = [c for f_ in (ff, fn_, repo.find_function(f"{F_QUAN}::find_quantiles")) for c in ast.walk(f_.node)
+              if isinstance(c, ast.Call) and call_name(c) in ("hash", "sample", "choice", "shuffle", "permutation", "default_rng", "RandomState", "seed", "random", "time", "getrandbits", "uuid4")]
+    ctx.ob(rule, construct(ff, "the quantile search is given the whole column, deterministically"), okc and not nondet, loc(ff, fq[0] if fq else None),
+           "" if (okc and not nondet) else (f"find_quantiles receives `{src}`" if not okc else f"`{unparse(nondet[0])[:60]}`: the boundaries depend on something else than the multiset of values") + ": sub-sampling / process-dependent input makes the fit depend on the row order, the number of rows or the interpreter")
 
 
 def check_nan_separate(ctx, rule: str):
